@@ -99,6 +99,16 @@ var e3cache *e3
 func newE3(p *Program, r *Reporter) *e3 {
 	g := buildTaint(p)
 	ff := buildFieldFacts(p, nil, nil)
+	for _, n := range ff.notes {
+		fmt.Println("field fact:", n)
+	}
+	for _, n := range ff.failed {
+		fmt.Println("field fact NOT established:", n)
+	}
+	if r != nil {
+		r.Extra["field_facts"] = ff.notes
+		r.Extra["field_facts_failed"] = ff.failed
+	}
 	e := &e3{p: p, g: g, ff: ff, rg: newRanger(p, ff), r: r, fns: p.handlerReachableRepoFuncs()}
 	return e
 }
@@ -979,6 +989,9 @@ func (e *e3) indexInBoundsIn(idx, cont ssa.Value, b *ssa.BasicBlock, conds []con
 				upOK, upWhy = true, "sort.Search result in [0,len] and != len at "+e.p.pos(bo.Pos())
 			}
 		}
+	}
+	if !upOK && r.hasSym && r.symOff <= -1 && sameOrKey(r.symVal, cont, ckey) {
+		upOK, upWhy = true, fmt.Sprintf("idx <= len(container)%+d (symbolic bound)", r.symOff)
 	}
 	if !upOK {
 		// numeric upper bound below a proven length lower bound
